@@ -148,6 +148,12 @@ class Ref:
     def _clearcache(self, c):
         pass
 
+    def _adminbuild(self, c):
+        pass
+
+    def _envrmdir(self, c):
+        self.dirs.discard(tuple(c["dir"]))              # deleted by hand: the database is not told
+
     def _set_tag(self, t, key):
         si, n, v, f = key
         for s in range(NST):
